@@ -300,6 +300,18 @@ def on_state(bd, hist_ops, col=None):
             col.violation(SIG.format(entry, "reduced-view-differs-from-window"), dict(history=hist, h=h, full={k: v.tolist() for k, v in fa.items()}, reduced={k: v.tolist() for k, v in ra.items()}))
         if h == cfg["H"]:
             col.outcome("valid_windows_rejected_by_mask(reported only)", max(0, valid_windows_reference(bd, h) - n_adm))
+    if cfg["cls"].endswith("PER") and not cfg.get("mt"):
+        # the same windows with every stored priority tiny (what update_priority(2^-40) leaves behind): the admissible
+        # starts still carry ALL the priority mass, however small it is in absolute terms
+        keep = buf.priority.priority.copy()
+        buf.priority.priority[: buf.current_len] = 2.0**-40
+        try:
+            for h in range(1, cfg["H"] + 1):
+                tiny = buf.sample_batch(64, h, True, StubRng())
+                judge(bd, hist, h, "intermediate(tiny priorities)", tiny, col, entry)
+            col.outcome("states_sampled_with_tiny_priorities")
+        finally:
+            buf.priority.priority[:] = keep
     after = canon(bd)
     if after != before:
         col.violation(SIG.format(entry, "sampling-changed-buffer-state"), dict(history=hist))
